@@ -217,6 +217,8 @@ def main():
             runs_c = [(24, 16, 4000), (16, 8, 20000), (28, 24, 1500)] * (6 if tr == 'thorough' else 2)
             # batch consumers on the raw queue: (rounds, consumers, items, producers)
             runs_c += [('bulk', 4, 6, 100000, 1), ('bulk', 3, 8, 60000, 2), ('bulk', 3, 5, 80000, 3)] * (4 if tr == 'thorough' else 1)
+            # producer-token sub-queues: (rounds, items)
+            runs_c += [('token', 4, 20000), ('token', 3, 50000)] * (4 if tr == 'thorough' else 1)
             outs = []
             for a in runs_c:
                 try:
